@@ -551,7 +551,7 @@ func init() {
 		ID: "C04", Level: "model_checking",
 		Rule: "explicit-state exploration of operation histories on one compiled *Expr: a state is the history that reaches it (query trees keep state in closures and cannot be copied); for each of ~250 expressions (every query-node type, every function closure) every history of <= 2 operations over 48 operations (Select/Evaluate x 2 documents x {root, inner element, leaf, attribute} x consume {0,1,all}), every repetition history (one operation 3..6 times), and every history of 3 operations over a reduced alphabet (thorough), is replayed on a fresh Compile and followed by each of 16 probes; the probe's observation must equal the same probe on a freshly compiled expression (differential oracle, exactly what the property states); states = distinct VerifDumpState renderings of the shared query tree seen after each operation, transitions = operations executed, traces_validated = histories x probes executed on the implementation; non-trivial = non-empty history; distinct = distinct expressions",
 		Assumptions:    []string{"history depth <= 2 (3 on a reduced alphabet)", "two fixed history documents", "VerifDumpState only counts states, it never prunes"},
-		Budget:         budget(90*time.Second, 30*time.Minute),
+		Budget:         budget(240*time.Second, 30*time.Minute),
 		MinRefOutcomes: 1,
 		Spaces: func(tier string) []*explore.Space {
 			if tier == "thorough" {
